@@ -237,6 +237,33 @@ def random_input(rnd, nodes):
             "dcf": (not strict) and rnd.random() < 0.3, "icfg": [l for l in range(1, len(argv) + 1) if rnd.random() < 0.3]}
 
 
+RAW_MOD = {"T1": 1, "T2": 4, "T3": 8}
+
+
+def judge_model_case(rep, c, r):
+    rep.traces += 1
+    ref = {"err": c["ref"]["err"], "levels": [{"x": l["x"], "chosen": l["chosen"], "sections": sorted(l["sections"])} for l in c["ref"]["levels"]]}
+    seen = {"err": r["err"], "levels": r["levels"]}
+    if not ref["err"] and len(ref["levels"]) > 1:
+        rep.note_nontrivial(c["tree"] + json.dumps(c["input"], sort_keys=True))
+    if seen == ref and not r.get("escaped"):
+        if rep.traces % 4001 == 1:
+            rep.sample({"tree": c["tree"], "input": c["input"], "call": r["call"], "env": r["env"], "expected": ref, "observed": seen})
+        return
+    case = {"tree": c["tree"], "nodes": c["nodes"], "input": c["input"], "call": r["call"], "env": r["env"], "expected": ref, "observed": seen, "message": r.get("msg")}
+    alg = {"err": c["alg"]["err"], "levels": [{"x": l["x"], "chosen": l["chosen"], "sections": sorted(l["sections"])} for l in c["alg"]["levels"]]}
+    if seen == ref and not r.get("escaped"):
+        return
+    if c["dcfdev"]:
+        rep.violation("dcf:subcommand-settings", DCFDEV, case)
+    elif r.get("escaped"):
+        rep.violation(f"escaped:{r['escaped']}", f"{r['escaped']} escaped from a parse with sub-commands", case)
+    elif c["dev"] and seen == alg:
+        rep.violation("cfgkey-names-other:settings-dropped", DEV, case)
+    else:
+        rep.violation(_key(c["input"], ref, seen), _what(ref, seen), case)
+
+
 def main(argv):
     tier = "thorough" if (argv and argv[0] == "thorough") else "quick"
     rep = Report(PID, tier)
@@ -246,51 +273,48 @@ def main(argv):
         "environment variables of a sub-command are only rendered below a sub-command that the environment names (they are not read otherwise); an explicit 'subcommand' key is rendered inside its section",
         "aliases, sub-command specific config options and default config files at inner levels are not part of the instance",
     ]
-    cases = []
     treedefs = {}
+    n_cases = 0
     for t in (("T1", "T2") if tier == "quick" else ("T1", "T2", "T3")):   # the three-level tree is model-checked in the thorough tier; quick reaches depth 3 through the random trees
         cfgname = f"MC_Subcommands_{tier}_{t}"
-        mc = tlc.run("MC_Subcommands", cfgname, workers=16, timeout=3000, heap="12g")
+        # thorough: the instances print millions of behaviours -- all of them are model-checked, a deterministic sample
+        # (1 in RAW_MOD, chosen by a digest of the record) is replayed on the real code
+        raw = 0 if tier == "quick" else RAW_MOD[t]
+        mc = tlc.run("MC_Subcommands", cfgname, workers=16, timeout=6000, heap="12g", raw_mod=raw, raw_keep='\\"treedef\\"')
         rep.add_tlc(cfgname, mc)
         if mc.errors:
             if mc.violated:
                 rep.violation("model:" + ",".join(mc.violated) + ":" + t, f"TLC: {mc.violated} violated in MC_Subcommands ({t})", {"tlc_errors": mc.errors, "counterexample": mc.cex[:5000]})
                 continue
             machinery_failure(PID, f"TLC failed on {cfgname}:\n" + mc.stdout[-3000:])
-        td = [p for p in mc.printed if isinstance(p, dict) and "treedef" in p]
-        got = [p for p in mc.printed if isinstance(p, dict) and "input" in p]
-        if not td or not got:
+        if raw:
+            td = [json.loads(s) for s in mc.printed if isinstance(s, str) and '"treedef"' in s]
+            got_texts = [s for s in mc.printed if isinstance(s, str) and '"input"' in s and '"treedef"' not in s]
+            rep.extra[f"behaviours_model_checked_{t}"] = mc.printed_total - len(td)
+        else:
+            td = [p for p in mc.printed if isinstance(p, dict) and "treedef" in p]
+            got_texts = [json.dumps({"input": c["input"], "ref": c["ref"], "alg": c["alg"], "dev": c["dev"], "dcfdev": c["dcfdev"]}, sort_keys=True, separators=(",", ":"))
+                         for c in mc.printed if isinstance(c, dict) and "input" in c]
+        if not td or not got_texts:
             machinery_failure(PID, f"{cfgname}: nothing emitted")
         treedefs[t] = td[0]["nodes"]
-        got.sort(key=lambda c: json.dumps(c["input"], sort_keys=True))
-        rep.extra[f"behaviours_{t}"] = len(got)
+        # the cases of one tree are kept as compact JSON text and replayed in slices (the thorough instance of the
+        # three-level tree has millions of behaviours: decoded all at once they do not fit into memory)
+        texts = sorted(got_texts)
+        rep.extra[f"behaviours_{t}"] = len(texts)
+        mc.printed, mc.stdout = [], ""
+        del got_texts, mc
         stride = 1 if (tier == "thorough" or t == "T1") else 3
-        for n, c in enumerate(got):
-            if n % stride == 0:
-                cases.append({"nodes": treedefs[t], "input": c["input"], "ref": c["ref"], "alg": c["alg"], "dev": c["dev"], "dcfdev": c["dcfdev"], "variant": n, "tree": t})
-    results = pipeline.run_many(run_case, cases, chunksize=32)
-    for c, r in zip(cases, results):
-        rep.traces += 1
-        ref = {"err": c["ref"]["err"], "levels": [{"x": l["x"], "chosen": l["chosen"], "sections": sorted(l["sections"])} for l in c["ref"]["levels"]]}
-        seen = {"err": r["err"], "levels": r["levels"]}
-        if not ref["err"] and len(ref["levels"]) > 1:
-            rep.note_nontrivial(c["tree"] + json.dumps(c["input"], sort_keys=True))
-        if seen == ref and not r.get("escaped"):
-            if rep.traces % 4001 == 1:
-                rep.sample({"tree": c["tree"], "input": c["input"], "call": r["call"], "env": r["env"], "expected": ref, "observed": seen})
-            continue
-        case = {"tree": c["tree"], "nodes": c["nodes"], "input": c["input"], "call": r["call"], "env": r["env"], "expected": ref, "observed": seen, "message": r.get("msg")}
-        alg = {"err": c["alg"]["err"], "levels": [{"x": l["x"], "chosen": l["chosen"], "sections": sorted(l["sections"])} for l in c["alg"]["levels"]]}
-        if seen == ref and not r.get("escaped"):
-            continue
-        if c["dcfdev"]:
-            rep.violation("dcf:subcommand-settings", DCFDEV, case)
-        elif r.get("escaped"):
-            rep.violation(f"escaped:{r['escaped']}", f"{r['escaped']} escaped from a parse with sub-commands", case)
-        elif c["dev"] and seen == alg:
-            rep.violation("cfgkey-names-other:settings-dropped", DEV, case)
-        else:
-            rep.violation(_key(c["input"], ref, seen), _what(ref, seen), case)
+        texts = [(n, s) for n, s in enumerate(texts) if n % stride == 0]
+        for lo in range(0, len(texts), 40000):
+            cases = [dict(json.loads(s), nodes=treedefs[t], variant=n, tree=t) for n, s in texts[lo:lo + 40000]]
+            results = pipeline.run_many(run_case, cases, chunksize=32)
+            n_cases += len(cases)
+            for c, r in zip(cases, results):
+                judge_model_case(rep, c, r)
+            del cases, results
+        del texts
+    rep.extra["model_cases_replayed"] = n_cases
 
     # ---- TRACE: random trees
     ntr = 1000 if tier == "quick" else 20000
@@ -336,7 +360,7 @@ def main(argv):
     rep.rule = ("cases = (tree, input) pairs: TLC's behaviours for three fixed trees plus random trees/inputs; non-trivial & distinct = distinct pairs whose parse succeeds "
                 "and actually selects a sub-command (at least two levels in the result)")
     rep.exhaustive = False
-    rep.explanation = (f"{len(cases)} of TLC's behaviours (T1/T2 complete, T2 {'complete' if tier == 'thorough' else 'every 3rd'}, T3 {'complete' if tier == 'thorough' else 'thorough tier only'}) replayed on real parser trees; "
+    rep.explanation = (f"{n_cases} of TLC's behaviours (T1/T2 complete, T2 {'complete' if tier == 'thorough' else 'every 3rd'}, T3 {'complete' if tier == 'thorough' else 'thorough tier only'}) replayed on real parser trees; "
                        f"{len(rcases)} random (tree, input) pairs validated by TLC against Trace_Subcommands. Exhaustive w.r.t. the three fixed trees and the input grammar of MC_Subcommands only.")
     return rep.finish()
 
